@@ -3,6 +3,8 @@ package p_isaaca
 import (
 	"context"
 	"fmt"
+	"math"
+	"math/bits"
 	"net"
 	"sort"
 	"strings"
@@ -33,6 +35,16 @@ var (
 )
 
 const c07MaxNodes = 64
+
+const c07MaxByteSum = 32 * 255 // largest byte sum of a 32 byte previous-block hash
+
+// c07Add3 adds three uint64 without loss: (carry, low 64 bits).
+func c07Add3(a, b, c uint64) (hi, lo uint64) {
+	lo, c0 := bits.Add64(a, b, 0)
+	lo, c1 := bits.Add64(lo, c, 0)
+
+	return c0 + c1, lo
+}
 
 func c07Key(i int) base.Privatekey {
 	c07KeysOnce.Do(func() {
@@ -471,7 +483,8 @@ func c07RunView(
 func TestC07(t *testing.T) {
 	r := ev.Start(t, "C07")
 	defer r.Finish()
-	r.Rule("suffrages of 1..64 nodes with distinct addresses over a small alphabet (prefixes, case, punctuation), random point and previous-block hash; " +
+	r.Rule("suffrages of 1..64 nodes with distinct addresses over a small alphabet (prefixes, case, punctuation), random point and previous-block hash " +
+		"(heights from small up to math.MaxInt64, rounds from 0 up to math.MaxUint64, both also within a hash's byte sum of 2^63 resp. the end of their range; hashes with random, low and high byte sums); " +
 		"8 node views per case, each listing the suffrage in its own drawn permutation and running on a drawn member (or an outsider), all driven through BaseProposalSelector.Select " +
 		"with BlockBasedProposerSelector and, as request function, isaac.ConcurrentRequestProposal (the production wiring) over 1..4 stub peers. In half of the cases every view, otherwise views 0,1 and half of the others, have one honest peer " +
 		"(a valid proposal signed by whoever is asked); the others have peers that, per peer, answer for the first-choice proposer and for later candidates with one of: honest, not-found, error, " +
@@ -525,10 +538,60 @@ func TestC07(t *testing.T) {
 		outsider := isaac.NewLocalNode(c07Key(c07MaxNodes), base.NewStringAddress("outsider-node"))
 		forger := isaac.NewLocalNode(c07Key(c07MaxNodes+1), base.NewStringAddress("forger-node"))
 
-		height := rapid.OneOf(rapid.Int64Range(1, 40), rapid.Int64Range(1, 1<<40)).Draw(rt, "height")
-		round := rapid.OneOf(rapid.Uint64Range(0, 5), rapid.Uint64Range(0, 1<<20)).Draw(rt, "round")
+		// Valid points are all of base.Height >= genesis (int64) x base.Round (uint64): besides ordinary values, draw the
+		// ends of both ranges and the neighbourhood of 2^63 (within the largest byte sum of a 32 byte hash, 32*255), where
+		// height + round + byte sum crosses the int64 and the uint64 limits; previous-block hashes with low, random and high
+		// byte sums.
+		height := rapid.OneOf(
+			rapid.Int64Range(1, 40),
+			rapid.Int64Range(1, 1<<40),
+			rapid.Int64Range(math.MaxInt64-c07MaxByteSum-64, math.MaxInt64),
+			rapid.Int64Range(1<<40, math.MaxInt64),
+		).Draw(rt, "height")
+		round := rapid.OneOf(
+			rapid.Uint64Range(0, 5),
+			rapid.Uint64Range(0, 1<<20),
+			rapid.Uint64Range(1<<63-c07MaxByteSum-64, 1<<63+c07MaxByteSum+64),
+			rapid.Uint64Range(1<<63, math.MaxUint64),
+			rapid.Uint64Range(math.MaxUint64-c07MaxByteSum-64, math.MaxUint64),
+		).Draw(rt, "round")
 		point := base.RawPoint(height, round)
-		prev := valuehash.NewBytes(rapid.SliceOfN(rapid.Byte(), 32, 32).Draw(rt, "prev"))
+
+		if err := point.IsValid(nil); err != nil {
+			rt.Fatalf("generator made an invalid point %v: %v", point, err)
+		}
+
+		prev := valuehash.NewBytes(rapid.OneOf(
+			rapid.SliceOfN(rapid.Byte(), 32, 32),
+			rapid.SliceOfN(rapid.ByteRange(0xf0, 0xff), 32, 32),
+			rapid.SliceOfN(rapid.ByteRange(0x00, 0x0f), 32, 32),
+		).Draw(rt, "prev"))
+
+		prevsum := uint64(0)
+		for _, b := range prev.Bytes() {
+			prevsum += uint64(b)
+		}
+
+		var pointclasses []string
+
+		if height > math.MaxInt64-c07MaxByteSum-64 {
+			pointclasses = append(pointclasses, "point:height-near-maxint64")
+		}
+
+		if round >= 1<<63 {
+			pointclasses = append(pointclasses, "point:round>=2^63")
+		}
+
+		// height + round + byte sum, as a mathematical integer, is at or above 2^63 / 2^64
+		if hi, lo := c07Add3(uint64(height), round, prevsum); hi > 0 {
+			pointclasses = append(pointclasses, "point:sum>=2^64")
+		} else if lo >= 1<<63 {
+			pointclasses = append(pointclasses, "point:sum>=2^63")
+		}
+
+		if prevsum >= 32*0xf0 {
+			pointclasses = append(pointclasses, "prev:high-byte-sum")
+		}
 
 		const nviews = 8
 
@@ -834,6 +897,7 @@ func TestC07(t *testing.T) {
 		}
 
 		classes := []string{nclass, fmt.Sprintf("orders:%d", len(orders)), selfsel}
+		classes = append(classes, pointclasses...)
 
 		if nfault > 0 {
 			classes = append(classes, "fault-views:yes")
